@@ -3308,6 +3308,7 @@ def store_same(ex, st, a, b):
 
 
 TREE1 = {"/": ("d", ["a", "b"]), "/a": ("d", ["b"]), "/a/b": ("f", "x"), "/b": ("f", "yz")}
+TREE2 = {"/": ("d", ["a", "b"]), "/a": ("d", ["a", "b"]), "/a/a": ("d", ["a"]), "/a/a/a": ("d", []), "/a/b": ("f", "x"), "/b": ("f", "yz")}
 MEM_ALPHA = "/ab."
 
 # method -> (argument kinds, may it report failure and must then leave the tree untouched?)
@@ -3812,12 +3813,13 @@ def c06_thorough(ctx, prop):
 # ------------------------------------------------------------------------------------------------
 # C10: symlinks on Memfs
 # ------------------------------------------------------------------------------------------------
-def run_symlinks(ctx, prop, nmax, tag="c10_symlink", cwds=("/", "/a"), la_range=None, lb_range=None):
+def run_symlinks(ctx, prop, nmax, tag="c10_symlink", cwds=("/", "/a"), la_range=None, lb_range=None, tree=None):
     t0 = time.time()
     run = MemRun(ctx, tag)
     ex, ob, solver = run.ex, run.ob, run.solver
     unit = dict(status="pass", failures=[])
-    kinds = {"/": "d", "/a": "d", "/a/b": "f", "/b": "f"}
+    tree = tree or TREE1
+    kinds = {k: v[0] for k, v in tree.items()}
     for cwd in cwds:
         for la in (range(1, nmax + 1) if la_range is None else range(la_range[0], la_range[1] + 1)):
             for lb in (range(1, nmax + 1) if lb_range is None else range(lb_range[0], lb_range[1] + 1)):
@@ -3894,7 +3896,7 @@ def run_symlinks(ctx, prop, nmax, tag="c10_symlink", cwds=("/", "/a"), la_range=
                         if m:
                             ob.samples.append(dict(cwd=cwd, link=m["link"], target=m["target"]))
 
-                run.explore(TREE1, cwd, calls, c1 + c2, on_done)
+                run.explore(tree, cwd, calls, c1 + c2, on_done)
     seen = set()
     for f in ob.failures:
         if f["kind"] == "bound" or f["cex"] is None:
@@ -3909,7 +3911,7 @@ def run_symlinks(ctx, prop, nmax, tag="c10_symlink", cwds=("/", "/a"), la_range=
 #[test]
 fn replay_symlink() {
     // %s
-    let v = fixture();
+    let v = fixture();%s
     v.set_cwd(%s).unwrap();
     let (l, t) = (%s, %s);
     let t_is = |v: &Memfs| -> (bool, bool) { let tabs = if std::path::Path::new(t).is_absolute() { v.abs(t).unwrap() } else { v.abs(v.abs(l).unwrap().parent().unwrap().join(t)).unwrap() }; (v.is_dir(&tabs), v.is_file(&tabs)) };
@@ -3928,7 +3930,7 @@ fn replay_symlink() {
     assert!(v.remove(l).is_ok() && !v.exists(l), "C10: remove(link)");
     assert!(!tkind.0 && !tkind.1 || v.exists(&tabs), "C10: removing the link removed its target");
 }
-''' % (f["desc"], rs_str(f["cwd"]), rs_str(l), rs_str(t))
+''' % (f["desc"], '\n    v.mkdir_p("/a/a/a").unwrap();' if tree is TREE2 else "", rs_str(f["cwd"]), rs_str(l), rs_str(t))
         r = native_test(src, ctx.logdir, "%s_%d" % (tag, len(seen)))
         reproduced = r["ran"] and r["failed"] > 0
         rec = dict(kind=f["kind"], desc='"%s" link=%r target=%r cwd=%r' % (f["desc"], l, t, f["cwd"]), where="Memfs", reproduced=reproduced,
@@ -3955,6 +3957,23 @@ def _mk_c10(name, la, lb, cwd, tier):
     def f(ctx, prop):
         return run_symlinks(ctx, prop, lb, tag=name, cwds=(cwd,), la_range=(la, la), lb_range=(lb, lb))
     return f
+
+
+def _mk_c10_deep(name, la, lbs, cwd, tier):
+    @job(name, ["C10", "C12"], tier,
+         functions=["Memfs::{symlink,_symlink,readlink,readlink_abs,is_symlink,is_file,is_dir,is_symlink_dir,is_symlink_file,remove,exists} (real MIR)"],
+         bounds="every (link, target) pair of texts of exactly %d chars (link) and %s chars (target) over {'/','a','b','.'} from the depth-3 tree "
+                "{/, /a, /a/a, /a/a/a, /a/b, /b} with cwd '%s'" % (la, "/".join(map(str, lbs)), cwd))
+    def f(ctx, prop):
+        return run_symlinks(ctx, prop, max(lbs), tag=name, cwds=(cwd,), la_range=(la, la), lb_range=(min(lbs), max(lbs)), tree=TREE2)
+    return f
+
+
+_mk_c10_deep("c10_symlink_deep_aa", 1, (1, 2, 3), "/a/a", "quick")
+_mk_c10_deep("c10_symlink_deep_aaa", 1, (1, 2, 3), "/a/a/a", "quick")
+_mk_c10_deep("c10_symlink_deep_aa_l2", 2, (1, 2, 3), "/a/a", "thorough")
+_mk_c10_deep("c10_symlink_deep_aaa_l2", 2, (1, 2, 3), "/a/a/a", "thorough")
+_mk_c10_deep("c10_symlink_deep_aaa_t4", 1, (4,), "/a/a/a", "thorough")
 
 
 for _cwd, _c in (("/", "r"), ("/a", "a")):
